@@ -186,7 +186,16 @@ Inductive subt : Type :=
 | SExt (tp : N) (off : N)      (* extension subtable *)
 | SLeaf (pos tp fmt : N).      (* any other subtable, identified by where it was read *)
 
-Record lookup := mkLookup { l_type : N; l_flags : N; l_mfs : N; l_subs : list subt }.
+(* l_calls: the (position, lookup type) arguments of every subtable-reader call
+   made for this lookup, in order (first pass, then the extension pass) *)
+Record lookup := mkLookup { l_type : N; l_flags : N; l_mfs : N; l_subs : list subt;
+                            l_calls : list (N * N) }.
+
+Fixpoint ext_calls (base t : N) (offs : list N) (subs : list subt) : list (N * N) :=
+  match offs, subs with
+  | o :: ro, SExt _ eo :: rs => (base + o + eo, t) :: ext_calls base t ro rs
+  | _, _ => []
+  end.
 
 Section LookupList.
   Variable data : list N.
@@ -254,10 +263,11 @@ Section LookupList.
                          | SExt t _ :: _ =>
                              if t =? tp then Err
                              else match resolve_ext lpos t offs subs with
-                                  | Ok subs' => Ok (mkLookup t flags mfs subs', count')
+                                  | Ok subs' => Ok (mkLookup t flags mfs subs'
+                                                      (map (fun o => (lpos + o, tp)) offs ++ ext_calls lpos t offs subs), count')
                                   | Err => Err | Panic => Panic | OutOfFuel => OutOfFuel
                                   end
-                         | _ => Ok (mkLookup tp flags mfs subs, count')
+                         | _ => Ok (mkLookup tp flags mfs subs (map (fun o => (lpos + o, tp)) offs), count')
                          end
                      | Err => Err | Panic => Panic | OutOfFuel => OutOfFuel
                      end
@@ -289,6 +299,18 @@ Section LookupList.
         end
     end.
 End LookupList.
+
+(* the distinct subtable-reader calls of a lookup list: with the decode-once
+   cache of readLookupList this is the number of times the real subtable
+   reader runs *)
+Definition pair_eqb (a b : N * N) : bool := (fst a =? fst b) && (snd a =? snd b).
+Fixpoint dedup (l : list (N * N)) (seen : list (N * N)) : list (N * N) :=
+  match l with
+  | [] => seen
+  | x :: r => if existsb (pair_eqb x) seen then dedup r seen else dedup r (x :: seen)
+  end.
+Definition all_calls (ls : list lookup) : list (N * N) := flat_map l_calls ls.
+Definition distinct_calls (ls : list lookup) : N := N.of_nat (length (dedup (all_calls ls) [])).
 
 (* ---- the whole table ---- *)
 
